@@ -19,8 +19,9 @@ type C01Case struct {
 	CNF   [][]int `json:"cnf"`
 	Front string  `json:"front"` // slice | slicenb | dimacs | all
 	Cert  bool    `json:"cert"`
-	Limit int     `json:"limit"` // learned-clause limit, 0 = default
-	Meta  bool    `json:"meta"`  // also run metamorphic variants
+	Limit int     `json:"limit"`         // learned-clause limit, 0 = default
+	Meta  bool    `json:"meta"`          // also run metamorphic variants
+	Rep   bool    `json:"rep,omitempty"` // clauses repeated in the multiset
 }
 
 // exhaustive spaces: sequences of <= M clauses, each a sequence of <= L literals over n variables
@@ -125,6 +126,10 @@ func c01Gen(r *gen.Rng, tier string, idx int) interface{} {
 			c.CNF = gen.Random3SAT(r, c.N, 3, r.Range(380, 520))
 		}
 		c.Meta = r.Chance(1, 20)
+		if r.Chance(1, 5) { // a clause multiset: the same unit clause 3 to 5 times, other clauses repeated
+			c.CNF = gen.RepeatClauses(r, c.CNF, c.N)
+			c.Rep = true
+		}
 		return c
 	}
 	c.Mode = "big"
@@ -144,6 +149,10 @@ func c01Gen(r *gen.Rng, tier string, idx int) interface{} {
 		c.CNF = gen.Random3SAT(r, c.N, 3, r.Range(380, 460))
 	}
 	c.Limit = []int{0, 3, 20, 50}[r.Intn(4)]
+	if r.Chance(1, 6) {
+		c.CNF = gen.RepeatClauses(r, c.CNF, c.N)
+		c.Rep = true
+	}
 	return c
 }
 
@@ -255,7 +264,7 @@ func c01Solve(c *C01Case, front string, cnf [][]int, n int, cert bool, limit int
 		}
 		if !known { // validate independently
 			if n <= 50 {
-				sat, _, okd := ref.DPLL(cnf, n, nil, 40_000_000)
+				sat, _, okd := ref.DPLL(cnf, n, nil, oracleBudget(40_000_000))
 				if !okd {
 					rec.Inconclusive("DPLL budget exhausted on n=%d", n)
 				} else if sat {
@@ -264,10 +273,19 @@ func c01Solve(c *C01Case, front string, cnf [][]int, n int, cert bool, limit int
 					rec.Count("unsat_confirmed_dpll", 1)
 				}
 			} else if cert {
-				if !rupRefutes(cnf, n, certLines) {
-					rec.Viol(scen, "wrong-verdict", "Unsat-unconfirmed", "Solve answered Unsat but its certificate does not replay as a RUP refutation")
-				} else {
+				if rupRefutes(cnf, n, certLines) {
 					rec.Count("unsat_confirmed_rup", 1)
+				} else {
+					// an unusable certificate is C06's business, not a wrong verdict: decide the formula itself
+					sat, _, okd := ref.DPLL(cnf, n, nil, oracleBudget(40_000_000))
+					switch {
+					case !okd:
+						rec.Count("unsat_unconfirmed", 1)
+					case sat:
+						rec.Viol(scen, "wrong-verdict", "Unsat-for-sat", "Solve answered Unsat (and its certificate does not replay) but the independent DPLL finds a model")
+					default:
+						rec.Count("unsat_confirmed_dpll_after_bad_certificate", 1)
+					}
 				}
 			} else {
 				rec.Count("unsat_unconfirmed", 1)
@@ -286,6 +304,9 @@ func c01Solve(c *C01Case, front string, cnf [][]int, n int, cert bool, limit int
 func rupRefutes(cnf [][]int, n int, lines []string) bool {
 	chk := ref.NewRUP(cnf, n)
 	for _, l := range lines {
+		if f := strings.Fields(l); len(f) == 0 || !isIntToken(f[0]) {
+			continue // comment-like lines are ignored, as certificate checkers do (C06 judges the certificate itself)
+		}
 		cl, ok := parseCertLine(l)
 		if !ok {
 			return false
@@ -337,6 +358,9 @@ func c01Run(ci interface{}, rec *Rec) {
 		if ok && i > 0 && st != first && first != 0 {
 			rec.Viol("frontends", "wrong-verdict", "disagree", "front-ends disagree: %s vs %s", StatusName(first), StatusName(st))
 		}
+	}
+	if c.Rep {
+		rec.Count("cases_with_repeated_clauses", 1)
 	}
 	if c.Mode == "exh" {
 		rec.Count("exhaustive_cases", 1)
